@@ -125,9 +125,29 @@ def literal_flow(cr, f):
 def keyword_synonyms(ctx, cr):
     rule = "R-C14-keyword-synonyms"
     n = 0
+    def owners_of(group):
+        words = set(x for x in group if any(ch.isalpha() for ch in x)) or set(group)
+        out = []
+        for k, f in sorted(cr.fns.items()):
+            if not k.startswith(P) or f.get("file", "").endswith("_tests.rs") or "{closure" in k:
+                continue
+            lits = set()
+            for fx in fn_and_closures(cr, k):
+                for bi, t in M.iter_calls(fx):
+                    if M.norm_path(t["fn"].get("path", "")) in LITERAL_FNS and t["args"]:
+                        c = const_of(fx, t["args"][0])
+                        if c and c[0] in ("str", "val"):
+                            lits.add(str(c[1]))
+            if lits & words:
+                out.append(k)
+        return out
     for name, groups in sorted(SYNONYMS.items()):
         key = P + name
         fs = fn_and_closures(cr, key)
+        if not fs:
+            # the one-line keyword parser was inlined into its user: the keyword is recognised wherever its spellings are spelled out
+            alt_ = sorted(set(o for g in groups for o in owners_of(g)))
+            fs = [fx for o in alt_ for fx in fn_and_closures(cr, o)]
         if not fs:
             ctx.lost(rule, "%s:%s" % (rule, name), key)
             continue
@@ -296,37 +316,58 @@ def type_block(ctx, cr):
     ctx.ob(rule, rule + ":not-negated", ok, "the synthesized filter clause must have negation = false", fn=f)
 
 
+def rules_file_unit(cr):
+    """rules_file, its closures, and the private helpers it is split into (parser functions called from nowhere else)"""
+    from engine import ai as AIM, flow
+    root = P + "rules_file"
+    unit = {root}
+    for uk in flow.unit_functions(cr, root, ("rules::parser",), depth=2):
+        base = uk.split("::{closure")[0]
+        bf = cr.fns.get(base)
+        if base == root or bf is None or not AIM.is_private_fn(bf):
+            continue
+        callers = set(k.split("::{closure")[0] for k, f2 in cr.fns.items() if not f2.get("file", "").endswith("_tests.rs") and any(t["fn"].get("key") == base for bi, t in M.iter_calls(f2)))
+        refs = any(("{%s}" % base) in cr.ty_str(t) for t in range(0)) if False else False
+        if callers and callers <= unit | {base}:
+            unit.add(base)
+    return sorted(k for k in cr.fns if k.split("::{closure")[0] in unit)
+
+
 def default_rule(ctx, cr):
     rule = "R-C14-default-rule"
     f = cr.fns.get(P + "rules_file")
     if not f:
         ctx.lost(rule, rule + ":rules_file", P + "rules_file")
         return
+    bodies = [cr.fns[k] for k in rules_file_unit(cr)]
+    RULE = "rules::exprs::Rule"
+    fl = [x["name"] for x in cr.adts[RULE]["variants"][0]["fields"]]
     rule_aggs = []
-    for bi, si, s in M.iter_stmts(f):
-        rv = s.get("rv")
-        if rv and rv.get("r") == "agg" and rv.get("adt") == "rules::exprs::Rule":
-            fl = [x["name"] for x in cr.adts["rules::exprs::Rule"]["variants"][0]["fields"]]
-            cond = rv["ops"][fl.index("conditions")]
-            c = const_of(f, cond)
-            rule_aggs.append((c, s["p"]))
+    for fx in bodies:
+        for bi, si, s in M.iter_stmts(fx):
+            rv = s.get("rv")
+            if rv and rv.get("r") == "agg" and rv.get("adt") == RULE:
+                cond = rv["ops"][fl.index("conditions")]
+                rule_aggs.append((const_of(fx, cond), s["p"], fx, rv))
     ok = len(rule_aggs) == 1 and rule_aggs[0][0] is not None and rule_aggs[0][0][0] == "adt" and rule_aggs[0][0][1] == "Option::None"
     ctx.ob(rule, rule + ":no-condition", ok, "the implicit rule must be built with conditions: None (found %s)" % [r[0] for r in rule_aggs], fn=f)
     names = set()
-    for bi, b in enumerate(f["blocks"]):
-        def scan(o):
-            if isinstance(o, dict):
-                k = o.get("k")
-                if isinstance(k, dict) and "DEFAULT_RULE_NAME" in str(k.get("named", "")):
-                    names.add("DEFAULT_RULE_NAME")
-                if isinstance(k, dict) and k.get("str") == "default":
-                    names.add("default")
-                for v in o.values():
-                    scan(v)
-            elif isinstance(o, list):
-                for v in o:
-                    scan(v)
-        scan(b)
+
+    def scan(o):
+        if isinstance(o, dict):
+            k = o.get("k")
+            if isinstance(k, dict) and "DEFAULT_RULE_NAME" in str(k.get("named", "")):
+                names.add("DEFAULT_RULE_NAME")
+            if isinstance(k, dict) and k.get("str") == "default":
+                names.add("default")
+            for v in o.values():
+                scan(v)
+        elif isinstance(o, list):
+            for v in o:
+                scan(v)
+    for fx in bodies:
+        scan(fx["blocks"])
+        scan(fx.get("promoted", []))
     # the constant's value
     dv = None
     for k, fx in cr.fns.items():
@@ -336,16 +377,46 @@ def default_rule(ctx, cr):
                 if c and c[0] == "str":
                     dv = c[1]
     ctx.ob(rule, rule + ":named-default", bool(names) and (dv in (None, "default") or "default" in names), "the implicit rule must be named `default` (constant value %r)" % dv, fn=f, sample={"name": dv or "default"})
-    # one file-level expression = ONE line (conjunct) of the default rule: a file-level `A or B` must stay one disjunction
-    from rules.c19 import receiver_name
+    # one file-level expression = ONE line (conjunct) of the default rule: a file-level `A or B` must stay one disjunction.  The list in
+    # question is the one that becomes the default rule's block.conjunctions (found by following the Rule aggregate, not by its name).
+    from rules.c19 import refers_to
     meths = {}
-    for bi, t in M.iter_calls(f):
-        pth = M.norm_path(t["fn"].get("path", ""))
-        if t["args"] and receiver_name(f, t["args"][0]) == "default_rule_clauses":
-            meths.setdefault(pth.split("::")[-1], []).append(t.get("ln"))
+    if len(rule_aggs) == 1:
+        _, _, fx, rv = rule_aggs[0]
+        conj = None
+        bop = rv["ops"][fl.index("block")]
+        bl = M.op_place(bop)
+        for _ in range(6):
+            if bl is None:
+                break
+            d = def_of_local(fx, M.place_local(bl))
+            if not d or d[0] != "stmt":
+                break
+            brv = d[2]["rv"]
+            if brv.get("r") == "agg" and str(brv.get("adt", "")).endswith("exprs::Block"):
+                bfl = [x["name"] for x in cr.adts[brv["adt"]]["variants"][0]["fields"]]
+                cl = M.op_place(brv["ops"][bfl.index("conjunctions")])
+                for _2 in range(6):
+                    if cl is None:
+                        break
+                    if isinstance(cl, int):
+                        d2 = def_of_local(fx, cl)
+                        if d2 and d2[0] == "stmt" and d2[2]["rv"]["r"] == "use" and M.op_place(d2[2]["rv"]["o"]) is not None:
+                            cl = M.op_place(d2[2]["rv"]["o"])
+                            continue
+                        conj = cl
+                        break
+                    cl = M.place_local(cl)
+                break
+            bl = M.op_place(brv["o"]) if brv.get("r") == "use" else None
+        if conj is not None:
+            for bi, t in M.iter_calls(fx):
+                pth = M.norm_path(t["fn"].get("path", ""))
+                if t["args"] and M.op_place(t["args"][0]) is not None and refers_to(fx, M.op_place(t["args"][0]), conj) and pth.startswith("std::vec::Vec::"):
+                    meths.setdefault(pth.split("::")[-1], []).append(t.get("ln"))
     spread = {m: l for m, l in meths.items() if m in ("extend", "append", "extend_from_slice", "extend_one", "splice")}
     ctx.ob(rule, rule + ":one-line-per-expression", not spread and len(meths.get("push", [])) >= 3,
-           ("default_rule_clauses is filled through %s: the alternatives of one file-level `or` line become separate conjunct lines of the default rule" % spread) if spread
+           ("the default rule's list of lines is filled through %s: the alternatives of one file-level `or` line become separate conjunct lines of the default rule" % spread) if spread
            else "each file-level clause / type block / when block is pushed as one line (%d pushes)" % len(meths.get("push", [])), fn=f)
     # a file-level `when c { .. }` is the default rule's `when c { .. }`: its body is parsed by the same clause parsers as a `when` body
     # inside `rule default { .. }` (rule_block_clause), so a named-rule reference is accepted in both or in neither
@@ -367,8 +438,8 @@ def default_rule(ctx, cr):
                         tys = cr.ty_str(o["k"]["ty"]) if "k" in o and "ty" in o["k"] else ""
                     out.append(frozenset(_re.findall(r"\{(rules::parser::\w+)\}", tys)))
         return out
-    top = body_parsers(P + "rules_file", "parser::when_block", 1)
-    inner = body_parsers(P + "rule_block_clause", "parser::block", 0)
+    top = [x for uk in sorted(set(k.split("::{closure")[0] for k in rules_file_unit(cr))) for x in body_parsers(uk, "parser::when_block", 1)]
+    inner = body_parsers(P + "rule_block_clause", "parser::block", 0) + body_parsers(P + "rule_block_clause", "parser::when_block", 1)
     if len(top) != 1 or not inner:
         ctx.lost(rule, rule + ":when-body", "file-level when_block calls: %d, block(..) calls in rule_block_clause: %d" % (len(top), len(inner)))
     else:
@@ -377,11 +448,12 @@ def default_rule(ctx, cr):
             sorted(x.split("::")[-1] for x in top[0]), [sorted(y.split("::")[-1] for y in x) for x in inner],
             "" if ok else ": the same text is accepted in `rule default { .. }` and rejected at file level (or the reverse)"), fn=f)
     ins0 = False
-    for bi, t in M.iter_calls(f):
-        if M.norm_path(t["fn"].get("path", "")) == "std::vec::Vec::insert" and len(t["args"]) == 3:
-            c = const_of(f, t["args"][1])
-            if c == ("val", 0):
-                ins0 = True
+    for fx in bodies:
+        for bi, t in M.iter_calls(fx):
+            if M.norm_path(t["fn"].get("path", "")) == "std::vec::Vec::insert" and len(t["args"]) == 3:
+                c = const_of(fx, t["args"][1])
+                if c == ("val", 0):
+                    ins0 = True
     ctx.ob(rule, rule + ":placed-first", ins0, "the implicit rule must be inserted at index 0 of the rule list", fn=f)
 
 
@@ -440,8 +512,31 @@ def comments_are_whitespace(ctx, cr):
                 aware += 1
     if aware < 40:
         ctx.lost(rule, rule + ":floor", "only %d uses of the comment-aware skippers found in the parser (floor 40)" % aware)
+    from engine import ai as AIM
+
+    def reviewed_ws(owner, depth=0):
+        if owner in BARE_WS_REVIEWED:
+            return BARE_WS_REVIEWED[owner]
+        fn = cr.fns.get(owner)
+        if fn is None or depth > 1 or not AIM.is_private_fn(fn):
+            return None
+        # a few lines split off from a reviewed function: a private helper all of whose users (callers, or functions that hand it to a
+        # combinator as a parser) are reviewed positions
+        users_ = set()
+        for k2, f2 in cr.fns.items():
+            if f2.get("file", "").endswith("_tests.rs") or k2.split("::{closure")[0] == owner:
+                continue
+            if any(t["fn"].get("key") == owner for bi, t in M.iter_calls(f2)):
+                users_.add(k2.split("::{closure")[0])
+                continue
+            acc2 = []
+            consts(f2["blocks"], acc2)
+            if any(cr.types[c["ty"]]["k"] == "fndef" and M.norm_path(cr.types[c["ty"]].get("p", "")) == owner for c in acc2):
+                users_.add(k2.split("::{closure")[0])
+        whys = [reviewed_ws(u, depth + 1) for u in users_]
+        return ("private helper of a reviewed position: " + whys[0]) if users_ and all(whys) else None
     for owner in sorted(users):
-        why = BARE_WS_REVIEWED.get(owner)
+        why = reviewed_ws(owner)
         f = cr.fns.get(owner) or next(v for kk, v in cr.fns.items() if kk.startswith(owner))
         ctx.ob(rule, "%s:%s" % (rule, owner), why is not None, ("reviewed: " + why) if why else
                "%s skips blanks with nom's %s, which does not accept `#` comments; every other layout position between/after clauses uses zero_or_more_ws_or_comment" % (owner, sorted(users[owner])), fn=f,
@@ -490,7 +585,14 @@ def keyword_boundaries(ctx, cr):
             ctx.lost(rule, "%s:%s" % (rule, key.split("::")[-1]), key)
             continue
         items = fnitems(key)
-        has_term = term is None or term in items
+        own_lits = set()
+        for fx in fn_and_closures(cr, key):
+            for bi, t in M.iter_calls(fx):
+                if M.norm_path(t["fn"].get("path", "")) in LITERAL_FNS and t["args"]:
+                    c = const_of(fx, t["args"][0])
+                    if c and c[0] in ("str", "val"):
+                        own_lits.add(str(c[1]))
+        has_term = term is None or term in items or {"or", "OR", "|OR|"} <= own_lits
         has_sep = any(x in items for x in seps)
         ctx.ob(rule, "%s:%s" % (rule, key.split("::")[-1]), has_term and has_sep,
                "%s does not require a separator after the keyword (uses %s): an identifier beginning with the keyword is split" % (key.split("::")[-1], sorted(x.split("::")[-1] for x in items if "parser::" in x or "nom::character" in x))
